@@ -113,6 +113,9 @@ type Step struct {
 
 type Script struct {
 	Layout string `json:"layout"` // flat, k8s
+	// PathStyle: how the two paths are spelled when handed to the watcher: "clean", "dot" (dir/./tls.crt),
+	// "slashes" (dir//tls.key): legal spellings of the same files (fsnotify reports cleaned names)
+	PathStyle string `json:"path_style,omitempty"`
 	Steps  []Step `json:"steps"`
 	Settle struct {
 		Style string `json:"style"` // inplace-cert-first, inplace-key-first, rename-cert-first, rename-key-first, swap
@@ -131,6 +134,7 @@ var col = vstat.New("C14", "c14.reload")
 func gen(t *rapid.T) Script {
 	var s Script
 	s.Layout = rapid.SampledFrom([]string{"flat", "flat", "k8s"}).Draw(t, "layout")
+	s.PathStyle = rapid.SampledFrom([]string{"clean", "clean", "dot", "slashes"}).Draw(t, "pathStyle")
 	next := 1
 	n := rapid.IntRange(0, 10).Draw(t, "nsteps")
 	removed := map[string]bool{}
@@ -353,6 +357,12 @@ func exec(s Script) (v *vstat.Violation, classes []string) {
 		os.WriteFile(w.certPath, ps[0].cert, 0o644)
 		os.WriteFile(w.keyPath, ps[0].key, 0o600)
 	}
+	switch s.PathStyle {
+	case "dot":
+		w.certPath, w.keyPath = dir+"/./tls.crt", dir+"/./tls.key"
+	case "slashes":
+		w.certPath, w.keyPath = dir+"//tls.crt", dir+"//tls.key"
+	}
 	cw, err := certwatcher.New(w.certPath, w.keyPath)
 	if err != nil {
 		return vstat.Violf("setup|watcher-rejects-valid-pair", "certwatcher.New: %v", err), nil
@@ -556,6 +566,9 @@ func exec(s Script) (v *vstat.Violation, classes []string) {
 			return vstat.Violf(cls+"|handshake-after-convergence", "after convergence a handshake gives serial %d err %v, want %d", ser, err, k+1), classes
 		}
 	}
+	if s.PathStyle != "" && s.PathStyle != "clean" {
+		classes = append(classes, "paths-not-in-clean-form")
+	}
 	classes = append(classes, "layout:"+s.Layout, "settle:"+s.Settle.Style, fmt.Sprintf("handshakes-during-history>0:%v", nh > 0))
 	if broken {
 		classes = append(classes, "broken-intermediate-state")
@@ -574,7 +587,7 @@ func exec(s Script) (v *vstat.Violation, classes []string) {
 
 func TestReload(t *testing.T) {
 	getPairs()
-	col.Mandatory("layout:flat", "layout:k8s", "settle:swap", "settle:inplace-key-first", "settle:rename-cert-first", "broken-intermediate-state", "two-update-styles", "then:alt-chain", "then:renewal", "bundle-written-block-by-block")
+	col.Mandatory("layout:flat", "layout:k8s", "settle:swap", "settle:inplace-key-first", "settle:rename-cert-first", "broken-intermediate-state", "two-update-styles", "then:alt-chain", "then:renewal", "bundle-written-block-by-block", "paths-not-in-clean-form")
 	vstat.Run(t, vstat.Spec[Script]{Col: col, Quick: 150, Thorough: 4000, Gen: gen,
 		Exec: func(s Script) *vstat.Violation {
 			v, cl := exec(s)
